@@ -420,7 +420,20 @@ pub fn gen_config(rng: &mut Rng, opts: &ConfigOpts) -> config::Encoder {
             alpha: tukey_alpha(rng),
         }
     };
+    // pass `exp`: the harness is built with the library's `experimental` feature, where the
+    // direct-MSE and IRLS-MAE estimators are accepted by verification (no random draw otherwise,
+    // so the other builds see the same configurations as before)
+    if experimental_compiled_in() && rng.chance(2, 3) {
+        sf.qlpc.use_direct_mse = true;
+        if rng.flip() {
+            sf.qlpc.mae_optimization_steps = *rng.pick(&[1usize, 1, 2, 3, 5, 8, 20]);
+        }
+    }
     c
+}
+
+pub fn experimental_compiled_in() -> bool {
+    flacenc::constant::build_info::FEATURES.split(',').any(|f| f.trim() == "experimental")
 }
 
 pub fn describe_config(c: &config::Encoder) -> String {
@@ -440,7 +453,11 @@ pub fn describe_config(c: &config::Encoder) -> String {
         c.subframe_coding.qlpc.lpc_order,
         c.subframe_coding.qlpc.quant_precision,
         c.subframe_coding.qlpc.window,
-    )
+    ) + &if c.subframe_coding.qlpc.use_direct_mse || c.subframe_coding.qlpc.mae_optimization_steps != 0 {
+        format!(" mse={} mae={}", c.subframe_coding.qlpc.use_direct_mse, c.subframe_coding.qlpc.mae_optimization_steps)
+    } else {
+        String::new()
+    }
 }
 
 // ---------------------------------------------------------------- sources
